@@ -1,0 +1,40 @@
+//go:build verif
+
+package storage
+
+import (
+	"fmt"
+
+	"github.com/MixinNetwork/mixin/crypto"
+)
+
+// VerifWriteNode runs one of the unexported membership writes of
+// badger_node.go in a Badger transaction of its own, committed only when the
+// write returns nil (what WriteSnapshot does around finalizeTransaction).
+// Used by the verification harness to reach histories that no snapshot
+// sequence builds (an empty membership history, genesis accepts at any point).
+func (s *BadgerStore) VerifWriteNode(kind string, signer, payee crypto.Key, tx crypto.Hash, timestamp uint64, genesis bool) error {
+	s.mutex.Lock()
+	defer s.mutex.Unlock()
+
+	txn := s.snapshotsDB.NewTransaction(true)
+	defer txn.Discard()
+
+	var err error
+	switch kind {
+	case "pledge":
+		err = writeNodePledge(txn, signer, payee, tx, timestamp)
+	case "accept":
+		err = writeNodeAccept(txn, signer, payee, tx, timestamp, genesis)
+	case "cancel":
+		err = writeNodeCancel(txn, signer, payee, tx, timestamp)
+	case "remove":
+		err = writeNodeRemove(txn, signer, payee, tx, timestamp)
+	default:
+		panic(fmt.Errorf("VerifWriteNode kind %s", kind))
+	}
+	if err != nil {
+		return err
+	}
+	return txn.Commit()
+}
